@@ -177,7 +177,7 @@ def check_c02(ctx, ana, case, judge=True):
     tr, nums, N, spec = ana.tr, ana.nums, ana.N, ana.spec
     Tmax, w0, i0, imax = motor_consts(spec)
     M = ana.M
-    load = spec['load']
+    load = getattr(tr, 'load', None) or spec['load']          # the load function in force while this history was recorded
 
     def viol(name, w):
         if judge:
